@@ -205,6 +205,7 @@ HEADER = ["(* generated from auditok/core.py, io.py, util.py - do not edit *)",
 GROUPS = {
     # group -> (generated file, tie file, tie lemmas)
     "split": ("GenSplit.v", "TieSplit.v", ["tie_split_params", "tie_split_params_reader"]),
+    "savers": ("GenSavers.v", "TieSavers.v", ["tie_w_flush", "tie_w_process", "tie_w_drain", "tie_j_write"]),
     "fsrc": ("GenFsrc.v", "TieFsrc.v", ["tie_raw_read", "tie_wave_read", "tie_stdin_read"]),
     "algebra": ("GenAlgebra.v", "TieAlgebra.v", ["tie_check_params", "tie_add", "tie_mul", "tie_eq", "tie_len"]),
     "dur": ("GenDur.v", "TieDur.v", ["tie_epsilon", "tie_nbw_floor", "tie_nbw_ceil", "tie_split_calls"]),
@@ -649,7 +650,183 @@ def gen_fsrc(repo):
     return "\n".join(out)
 
 
-GENERATORS = {"fsrc": gen_fsrc, "algebra": gen_algebra, "split": gen_split, "dur": gen_dur, "region": gen_region, "silence": gen_silence, "buf": gen_buf, "fmt": gen_fmt}
+class SaverPure(Pure):
+    """file-writing workers: blocks are abstract elements with a size; the file is the list of blocks written.
+    self._cache.append(x); b"".join(self._cache) (the cached blocks, in order); self._wfp.writeframes(x); self._wfp.close();
+    len(block) = bsz block; one turn of `while True: try: m = self._inbox.get_nowait() ... except Empty: break`."""
+    case_msg = None       # for the drain loop: ("empty",) | ("stop",) | ("data", V)
+
+    def expr(self, e, env, binds):
+        if isinstance(e, ast.Call) and isinstance(e.func, ast.Name) and e.func.id == "len" and len(e.args) == 1:
+            a = self.expr(e.args[0], env, binds)
+            if a.ty == "elem":
+                return V("(bsz %s)" % a.text, "Z")
+        if isinstance(e, ast.Call) and isinstance(e.func, ast.Attribute) and e.func.attr == "join" and isinstance(e.func.value, ast.Constant) \
+                and e.func.value.value == b"" and len(e.args) == 1:
+            a = self.expr(e.args[0], env, binds)
+            if a.ty != "bytes":
+                bad(e, "join of something that is not the block list")
+            return V(a.text, "bytes")
+        if isinstance(e, ast.List) and not e.elts:
+            return V("[]", "bytes")
+        if isinstance(e, ast.Name) and e.id == "_STOP_PROCESSING":
+            return V("STOP", "stopmark")
+        if isinstance(e, ast.Compare) and len(e.ops) == 1 and isinstance(e.ops[0], (ast.Eq, ast.NotEq)):
+            a = self.expr(e.left, env, binds); b = self.expr(e.comparators[0], env, binds)
+            if "stopmark" in (a.ty, b.ty):
+                other = b if a.ty == "stopmark" else a
+                if other.ty not in ("stopmark", "elem"):
+                    bad(e, "stop marker compared with %s" % other.ty)
+                r = (other.ty == "stopmark") == isinstance(e.ops[0], ast.Eq)
+                return TRUE_ if r else FALSE_
+        return super().expr(e, env, binds)
+
+    def block(self, stmts, env, k):
+        st = stmts[0] if stmts else None
+        if isinstance(st, ast.Expr) and isinstance(st.value, ast.Call) and isinstance(st.value.func, ast.Attribute):
+            f = st.value.func
+            if f.attr == "append" and isinstance(f.value, ast.Attribute) and isinstance(f.value.value, ast.Name) and f.value.value.id == "self" \
+                    and ("self." + f.value.attr) in env and env["self." + f.value.attr].ty == "bytes" and len(st.value.args) == 1:
+                x = self.expr(st.value.args[0], env, [])
+                if x.ty != "elem":
+                    bad(st, "only blocks are cached")
+                env = dict(env); nm = self.new("cache")
+                cur = env["self." + f.value.attr]
+                env["self." + f.value.attr] = V(nm, "bytes")
+                return "(let %s := (%s ++ [%s]) in %s)" % (nm, cur.text, x.text, self.block(stmts[1:], env, k))
+            if f.attr in ("writeframes", "writeframesraw") and ast.unparse(f.value) == "self._wfp" and len(st.value.args) == 1:
+                x = self.expr(st.value.args[0], env, [])
+                env = dict(env); nm = self.new("file")
+                cur = env["self.#file"]
+                if x.ty == "elem":
+                    add = "[%s]" % x.text
+                elif x.ty == "bytes":
+                    add = x.text
+                else:
+                    bad(st, "writeframes of %s" % x.ty)
+                env["self.#file"] = V(nm, "bytes")
+                return "(let %s := (%s ++ %s) in %s)" % (nm, cur.text, add, self.block(stmts[1:], env, k))
+            if f.attr == "close" and ast.unparse(f.value) == "self._wfp" and not st.value.args:
+                env = dict(env); env["self.#closed"] = V("true", "bool", True, True)
+                return self.block(stmts[1:], env, k)
+        # one turn of the drain loop
+        if isinstance(st, ast.While) and isinstance(st.test, ast.Constant) and st.test.value is True and not st.orelse \
+                and len(st.body) == 1 and isinstance(st.body[0], ast.Try) and self.case_msg is not None:
+            tr_ = st.body[0]
+            if len(tr_.handlers) != 1 or ast.unparse(tr_.handlers[0].type) != "Empty" or tr_.orelse or tr_.finalbody:
+                bad(st, "drain loop: expected try / except Empty")
+            after = stmts[1:]
+            if self.case_msg[0] == "empty":
+                h = list(tr_.handlers[0].body)
+                if not (len(h) == 1 and isinstance(h[0], ast.Break)):
+                    bad(st, "drain loop: the Empty handler must leave the loop")
+                return self.block(after, env, lambda e2: self.spec.ret(self, V("false", "flag"), e2, st))
+            body = list(tr_.body)
+            first = body[0]
+            if not (isinstance(first, ast.Assign) and isinstance(first.targets[0], ast.Name) and ast.unparse(first.value) == "self._inbox.get_nowait()"):
+                bad(st, "drain loop: the turn must start with <name> = self._inbox.get_nowait()")
+            env = dict(env)
+            env[first.targets[0].id] = V("STOP", "stopmark") if self.case_msg[0] == "stop" else self.case_msg[1]
+            return self.block(body[1:], env, lambda e2: self.spec.ret(self, V("true", "flag"), e2, st))
+        return super().block(stmts, env, k)
+
+
+TRUE_ = V("true", "bool", True, True)
+FALSE_ = V("false", "bool", False, True)
+W_STATE = [("_cache", "(wcache s)", "bytes"), ("_total_cached", "(wtotal s)", "Z"), ("#file", "(wfile s)", "bytes"), ("#closed", "(wclosed s)", "bool")]
+
+
+def _wstate(env):
+    return "(mkW %s %s %s %s)" % tuple(env["self." + a].text for a, _, _ in W_STATE)
+
+
+def ret_wstate(tr, v, env, node):
+    if v.ty == "none":
+        return _wstate(env)
+    if v.ty == "flag":
+        return "(%s, %s)" % (_wstate(env), v.text)
+    bad(node, "writer method returns %s" % v.ty)
+
+
+def gen_savers(repo):
+    wk = ast.parse(open(os.path.join(repo, "auditok", "workers.py")).read())
+    sav = next(n for n in wk.body if isinstance(n, ast.ClassDef) and n.name == "StreamSaverWorker")
+    joi = next(n for n in wk.body if isinstance(n, ast.ClassDef) and n.name == "AudioEventsJoinerWorker")
+    out = list(HEADER)
+    out[3] = "From AV Require Import Base.PyList Base.PyFloat Tok.Model Conc.Workers Conc.Savers."
+    out.append("Section Sav.\nContext {A : Type}.\nVariable bsz : A -> Z.\nVariable cache_size : Z.\n")
+
+    def meth(cls, name):
+        c = [n for n in cls.body if isinstance(n, ast.FunctionDef) and n.name == name and not n.decorator_list]
+        if len(c) != 1:
+            raise TranslationError("%s.%s not found exactly once" % (cls.name, name))
+        return c[0]
+    attrs = {"_cache_size": ("cache_size", "Z")}
+    for py, coq, params in (("_write_cached_data", "w_flush_gen", []), ("_process_message", "w_process_gen", [("data", "elem")])):
+        sp = Spec(coq, params, ret_wstate, self_attrs=attrs, state=W_STATE)
+        tr_ = SaverPure(meth(sav, py), sp, module=wk, cls=sav)
+        env = {p_: V(p_, "elem") for p_, _ in params}
+        for a_, g_, t_ in W_STATE:
+            env["self." + a_] = V(g_, t_)
+        body = tr_.block(Pure.body_of(tr_.fn), env, lambda e2: ret_wstate(tr_, NONE, e2, tr_.fn))
+        out.append("Definition %s (s : wstate A) %s: wstate A :=\n  %s.\n" % (coq, "".join("(%s : A) " % p_ for p_, _ in params), body))
+    # drain loop of _post_process, one turn per kind of message
+    cases = []
+    for case in (("empty",), ("stop",), ("data", V("d", "elem"))):
+        sp = Spec("w_drain_gen", [], ret_wstate, self_attrs=attrs, state=W_STATE)
+        tr_ = SaverPure(meth(sav, "_post_process"), sp, module=wk, cls=sav)
+        tr_.case_msg = case
+        env = {}
+        for a_, g_, t_ in W_STATE:
+            env["self." + a_] = V(g_, t_)
+        cases.append(tr_.block(Pure.body_of(tr_.fn), env, lambda e2: bad(tr_.fn, "_post_process must consist of the drain loop, the final write and the close")))
+    out.append("Definition w_drain_gen (s : wstate A) (m : option (option A)) : wstate A * bool :=\n  match m with\n  | None => %s\n  | Some None => %s\n  | Some (Some d) => %s\n  end.\n" % tuple(cases))
+    # the joiner
+    J_STATE = [("_first_event", "(fst s)", "bool"), ("#file", "(snd s)", "bytes")]
+
+    def ret_j(tr, v, env, node):
+        if v.ty != "none":
+            bad(node, "_write_audio_event returns a value")
+        return "(%s, %s)" % (env["self._first_event"].text, env["self.#file"].text)
+    sp = Spec("j_write_gen", [("data", "elem")], ret_j, self_attrs={"_silence_data": ("sil", "elem")}, state=J_STATE)
+    tr_ = SaverPure(meth(joi, "_write_audio_event"), sp, module=wk, cls=joi)
+    env = {"data": V("data", "elem")}
+    for a_, g_, t_ in J_STATE:
+        env["self." + a_] = V(g_, t_)
+    body = tr_.block(Pure.body_of(tr_.fn), env, lambda e2: ret_j(tr_, NONE, e2, tr_.fn))
+    out.append("Definition j_write_gen (sil : A) (s : bool * list A) (data : A) : bool * list A :=\n  %s.\n" % body)
+    # the silence the joiner inserts is make_silence(silence_duration, sampling_rate, sample_width, channels).data (C17_silence: round(d*rate) zero samples)
+    init = meth(joi, "__init__")
+    found = False
+    for n in ast.walk(init):
+        if isinstance(n, ast.Assign) and len(n.targets) == 1 and ast.unparse(n.targets[0]) == "self._silence_data":
+            v = n.value
+            ok = isinstance(v, ast.Attribute) and v.attr == "data" and isinstance(v.value, ast.Call) and isinstance(v.value.func, ast.Name) \
+                and v.value.func.id == "make_silence"
+            if ok:
+                call = v.value
+                names = ["silence_duration", "sampling_rate", "sample_width", "channels"]
+                kws = {"duration": 0, "sampling_rate": 1, "sample_width": 2, "channels": 3}
+                got = [None] * 4
+                for i, a in enumerate(call.args):
+                    got[i] = ast.unparse(a)
+                for k_ in call.keywords:
+                    if k_.arg in kws:
+                        got[kws[k_.arg]] = ast.unparse(k_.value)
+                ok = got == names
+            if not ok:
+                bad(n, "the joiner's silence is not make_silence(silence_duration, sampling_rate, sample_width, channels).data")
+            found = True
+    if not found:
+        raise TranslationError("AudioEventsJoinerWorker.__init__ does not set self._silence_data")
+    first = [n for n in ast.walk(init) if isinstance(n, ast.Assign) and ast.unparse(n.targets[0]) == "self._first_event"]
+    if len(first) != 1 or not (isinstance(first[0].value, ast.Constant) and first[0].value.value is True):
+        raise TranslationError("AudioEventsJoinerWorker.__init__ must start with self._first_event = True")
+    out.append("End Sav.\n")
+    return "\n".join(out)
+
+
+GENERATORS = {"savers": gen_savers, "fsrc": gen_fsrc, "algebra": gen_algebra, "split": gen_split, "dur": gen_dur, "region": gen_region, "silence": gen_silence, "buf": gen_buf, "fmt": gen_fmt}
 
 
 def emit_group(repo, group):
